@@ -46,8 +46,8 @@ ERRNOS = ["ENOSPC", "EIO", "EACCES", "EROFS", "EMFILE"]
 
 def plan(tier: str, seed: int) -> dict:
     if tier == "quick":
-        return {"n_runs": 10_000_000, "budget_s": 60, "min_runs": 100, "minimise_s": 40}
-    return {"n_runs": 10_000_000, "budget_s": 900, "min_runs": 300, "minimise_s": 90}
+        return {"n_runs": 10_000_000, "budget_s": 60, "min_runs": 30, "minimise_s": 40}
+    return {"n_runs": 10_000_000, "budget_s": 900, "min_runs": 100, "minimise_s": 90}
 
 
 # ---------------------------------------------------------------------- documents
